@@ -112,6 +112,20 @@ Theorem C03_resume_time_no_panic (B : N) (L : lcy) :
   B + TSMAX + 60000000 <= MachInt.u64max -> lc_ok B L -> is_ok (resume_time_chk L) = true.
 Proof. intros HB. exact (resume_time_chk_total B HB L). Qed.
 
+(* index arithmetic of the detector's periodic refresh (u32 message indices; repaired by fix 4811f3c): the saturating
+   test is total and equals the test of Lifecycle/Model.v (unbounded N) for EVERY index pair; the former checked
+   `+ 100_000` panicked for indices within 100 000 of u32::MAX and agreed with the repaired test everywhere else *)
+Theorem C03_refresh_index_arith_total (lastreg lastidx : N) :
+  lastidx <= MachInt.u32max -> refresh_due_sat lastreg lastidx = (lastreg + 100000 <? lastidx).
+Proof. exact (refresh_due_sat_is_model lastreg lastidx). Qed.
+Theorem C03_refresh_index_arith_before_fix_refuted :
+  exists lastreg lastidx, lastreg <= lastidx /\ lastidx <= MachInt.u32max /\
+    refresh_due_before_fix lastreg lastidx = Panic MachInt.site_add_overflow.
+Proof. exact refresh_due_before_fix_panics. Qed.
+Theorem C03_refresh_index_arith_fix_conservative (lastreg lastidx : N) :
+  lastreg + 100000 <= MachInt.u32max -> refresh_due_before_fix lastreg lastidx = Ok (refresh_due_sat lastreg lastidx).
+Proof. exact (refresh_due_before_fix_ok_below lastreg lastidx). Qed.
+
 (* non-vacuity: the witness of the repaired assert defect (a confirmed lifecycle merged while its predecessor is
    still buffered; DESIGN Appendix A, C03-2) satisfies the hypotheses; the checked run succeeds, performs a merge
    (2 lifecycles for ECU 1 collapse into 1) and delivers all 5 messages at the end of the stream *)
@@ -289,6 +303,9 @@ Print Assumptions C03_ranges_new.
 Print Assumptions C03_ranges_update.
 Print Assumptions C03_ranges_merge.
 Print Assumptions C03_resume_time_no_panic.
+Print Assumptions C03_refresh_index_arith_total.
+Print Assumptions C03_refresh_index_arith_before_fix_refuted.
+Print Assumptions C03_refresh_index_arith_fix_conservative.
 Print Assumptions C03_nonvacuous.
 Print Assumptions C03_reexport_parse_storage_never_panics.
 Print Assumptions C03_reexport_parse_serial_never_panics.
